@@ -33,7 +33,7 @@ ASSUMPTIONS = ['requests are str or None; avoid sets hold str',
 REQUIRED = {'direct_requests': {'quick': 40000, 'thorough': 800000},
             'insitu_ids_judged': {'quick': 5000, 'thorough': 100000},
             'insitu_requests_judged': {'quick': 600, 'thorough': 12000},
-            'contract.C21.pick_col_ident': {'quick': 1000, 'thorough': 20000},
+            'contract.C21.pick_col_ident': {'quick': 600, 'thorough': 12000},
             'contract.C21.pick_table_ident': {'quick': 100, 'thorough': 2000},
             'contract.C21.pick_col_ident_list': {'quick': 50, 'thorough': 1000}}
 SHARD_TIMEOUT = {'quick': 240, 'thorough': 2400}
